@@ -329,10 +329,11 @@ func yamlName(tag reflect.StructTag, def string) string {
 func init() { register("C13", checkC13) }
 
 func checkC13(c *Ctx, r *Report) {
-	r.Rules = []string{"S-get shape of Config.Get (two merges, override option only, lookup by the requested format)", "D1 content filter table", "V1 override keys validated against the packager registry", "A1 merge-aliasing hazard walk", "documented overridable keys are overridable fields", "S-get the override block is consumed by the merge only", "A-block-as-written override blocks are written only by the environment expansion"}
+	r.Rules = []string{"S-get shape of Config.Get (two merges, override option only, lookup by the requested format)", "D1 content filter table", "V1 override keys validated against the packager registry", "A1 merge-aliasing hazard walk", "documented overridable keys are overridable fields", "S-get the override block is consumed by the merge only", "A-block-as-written override blocks are written only by the environment expansion", "S-get-self fields Config.Get re-allocates are copied from themselves", "block-F15-self override blocks are expanded field by field from themselves (imported from C16)", "V1 no iteration of the override loop skips the registry lookup"}
 	r.Explanation = "Shape and table rules over go/ssa and go/types. (S-get) Config.Get performs exactly two mergo.Merge calls: the base Info (by value) into a freshly allocated Info, and the override block obtained by a map lookup whose key is the requested format — nothing else — into that Info's overridable part; both with exactly the option WithOverride (so lists are replaced wholesale and only non-empty values override); the path without an override block returns the base copy. (D1) the content filter in Get is evaluated for every (entry tag, requested format) cell and keeps an entry iff its tag is empty or the requested format. (V1) Config.Validate passes every key of the overrides table to the packager registry lookup and returns its error; the registry lookup fails for an unknown format. (A1) the type tree of Overridables is walked for pointer-kind fields, through which mergo would write into the base configuration, unless Get re-points them to fresh copies before the override merge. The documented '(overridable)' keys are fields of Overridables. mergo's reflective merge itself is trusted."
 	r.Explanation += " The override block is consumed by the merge alone: no field of the looked-up block is read directly in Config.Get or the helpers it hands the fresh Info to."
 	r.Explanation += " (A-block-as-written) every store whose address is rooted at an element of Config.Overrides (a map lookup, a range value, or a parameter bound to one at a call site) lies in the environment-expansion family."
+	r.Explanation += " (S-get-self) in Get and its helpers a store into the handed-out Info whose value derives from configuration fields derives from the same field. (V1, extended) from the loop body's entry no path returns to the loop header without passing the registry lookup."
 	r.Assumptions = []string{
 		"mergo v1.0.1 with WithOverride replaces a destination value by a non-empty source value, slices wholesale, nested structs field by field, and re-makes maps",
 	}
@@ -680,6 +681,31 @@ func checkC13(c *Ctx, r *Report) {
 					if ok2, w := notSwallowed(c, val, ev); ok2 && usedInNilTest(ev) {
 						okV = true
 						why = "every override key is looked up in the registry and a failure is returned"
+						// ... every key: no iteration gets back to the loop
+						// header without passing the lookup (a `continue` for
+						// blocks that are empty, say)
+						header := mr.Next.Block()
+						seen := map[*ssa.BasicBlock]bool{}
+						var dfs func(b *ssa.BasicBlock) bool
+						dfs = func(b *ssa.BasicBlock) bool {
+							if b == call.Block() || seen[b] {
+								return false
+							}
+							if b == header {
+								return true
+							}
+							seen[b] = true
+							for _, s := range b.Succs {
+								if dfs(s) {
+									return true
+								}
+							}
+							return false
+						}
+						if mr.Body != nil && dfs(mr.Body) {
+							okV = false
+							why = "some iterations of the loop over the override blocks skip the registry lookup: a block under an unregistered format's key would be accepted (and then silently ignored)"
+						}
 					} else {
 						why = w
 					}
@@ -780,6 +806,11 @@ func checkC13(c *Ctx, r *Report) {
 	// architecture configured the stored architecture is that value (rule
 	// D3-override of C02)
 	checkOverrideBlocksUntouched(c, r)
+	checkGetCopiesSelf(c, r)
+	// ... and the expansion writes each field of a block back from itself
+	// (rule of C16): a block's ipk list fed from its deb list changes a
+	// setting the block never mentioned
+	r.Floor("block-F15-self", importRules(c, r, checkC16, "block-", []string{"F15-self"}, func(o Obligation) bool { return true }), 12)
 	r.Floor("used-D3-override", importRules(c, r, checkC02, "used-", []string{"D3-override"}, nil), 3)
 	r.Exhaustive = true
 }
@@ -846,4 +877,61 @@ func checkOverrideBlocksUntouched(c *Ctx, r *Report) {
 	r.Check(len(bad) == 0, "A-block-as-written", "override blocks are written only by the environment expansion", pos,
 		fmt.Sprintf("%d store(s) into blocks of Config.Overrides; outside the expansion: %v - a value filled into a block is merged over the base setting although the file's block never mentioned the field", n, uniq(bad)))
 	r.Floor("A-block-as-written", n, 5)
+}
+
+// checkGetCopiesSelf (S-get-self): where Config.Get (or a helper of it)
+// re-allocates a field of the Info it hands out, the new value is a copy of
+// that very field - a copy taken from a sibling field (the deb key id stored
+// as the rpm key id) silently replaces one format's setting by another's.
+func checkGetCopiesSelf(c *Ctx, r *Report) {
+	pa := newProv(c)
+	n := 0
+	leaf := func(a string) string {
+		for _, pre := range []string{"Info.", "Info.", "Overridables."} {
+			a = strings.TrimPrefix(a, pre)
+		}
+		return a
+	}
+	get := c.Method("", "Config", "Get")
+	if get == nil {
+		r.Unresolved("(*Config).Get", "method not found")
+		return
+	}
+	for _, fn := range getFamily(c, get) {
+		k := 0
+		forEachInstr(fn, func(in ssa.Instruction) {
+			st, ok := in.(*ssa.Store)
+			if !ok {
+				return
+			}
+			pth, root := addrPath(st.Addr)
+			if root == nil || pth == "" {
+				return
+			}
+			rt := rootTypeName(root.Type())
+			if rt == "" || !c.isModuleType(root.Type()) {
+				return
+			}
+			var srcs []string
+			for _, a := range pa.Of(st.Val).list() {
+				if strings.HasPrefix(a, "Info.") || strings.HasPrefix(a, "Overridables.") || strings.HasPrefix(a, rt+".") {
+					srcs = append(srcs, a)
+				}
+			}
+			if len(srcs) == 0 {
+				return
+			}
+			n++
+			k++
+			self := false
+			for _, a := range srcs {
+				if leaf(a) == leaf(rt+"."+pth) {
+					self = true
+				}
+			}
+			r.Check(self, "S-get-self", fmt.Sprintf("store#%d in %s copies %s from itself", k, c.funcKey(fn), leaf(rt+"."+pth)), c.instrPos(st),
+				fmt.Sprintf("the value stored into %s derives from %v: a copy taken from another field replaces this setting by that one", leaf(rt+"."+pth), srcs))
+		})
+	}
+	r.Floor("S-get-self", n, 1)
 }
